@@ -14,9 +14,11 @@ import Chiritori.Lemmas.FormatBlock
   * `fmtBlockIndent_shape`: `t` is the column of the head seam (bytes between the preceding line break and the
     seam, 0 if anything but blanks precedes it) and `s` the indentation of the first block line minus `t`,
     truncated at 0; only blanks are consumed (`fmtBlockIndent_ok`).
-  Not proved yet: that *every* surviving inner line of an unwrapped element gets its range (completeness of the
-  loop between the two seams) and the composition over nested blocks; the file-start region is the known
-  finding D11.
+  * `blockLoop_complete` / `fmtBlockIndent_complete`: conversely *every* line of the block - every line that
+    starts at or behind the first block line and whose line break lies before the tail seam - gets exactly that
+    range (when it is not empty), so no inner line is skipped.
+  Not proved yet: the composition over nested blocks (union of the column intervals) and the link from the seam
+  positions in the removed text back to the source's tag column; the file-start region is the known finding D11.
 -/
 namespace Chiritori.Props.C12
 open Chiritori
@@ -73,6 +75,60 @@ theorem blockLoop_shape (b : Bytes) (endPos t s fuel cur : Nat) :
             · right; exact h2
     · simp at hr
 
+/-- completeness of the loop: every line that starts at or behind `cur` and whose line break lies before `endPos`
+    gets its range (when that range is not empty) -/
+theorem blockLoop_complete (b : Bytes) (endPos t s : Nat) : ∀ (fuel cur ls lb ip : Nat),
+    0 < cur → cur ≤ ls → (ls = cur ∨ b[ls - 1]? = some (.lead '\n') ∧ cur < ls) →
+    ls ≤ lb → b[lb]? = some (.lead '\n') → (∀ i, ls ≤ i → i < lb → b[i]? ≠ some (.lead '\n')) →
+    lb + 1 ≤ endPos → ls - cur < fuel →
+    findNextChar b ls = some ip → (lineRange ls ip t s).1 ≠ (lineRange ls ip t s).2 →
+    lineRange ls ip t s ∈ blockLoop b endPos t s fuel cur
+  | 0, _, _, _, _, _, _, _, _, _, _, _, hf, _, _ => by omega
+  | fuel + 1, cur, ls, lb, ip, h0, hle, hstart, hlb1, hlb2, hlb3, hend, hf, hip, hne => by
+    simp only [blockLoop]
+    rw [if_pos (by omega)]
+    by_cases hc : ls = cur
+    · subst hc
+      have hfind : findNextLB b ls false = some lb := by
+        cases hx : findNextLB b ls false with
+        | none =>
+          exact absurd hlb2 (findNextLB_none_false b ls h0 hx lb hlb1)
+        | some lb' =>
+          obtain ⟨_, g2, _, g4, g5, _⟩ := findNextLB_some _ _ _ _ hx
+          have : lb' = lb := by
+            rcases Nat.lt_trichotomy lb' lb with h | h | h
+            · exact absurd g4 (hlb3 lb' g2 h)
+            · exact h
+            · exact absurd hlb2 (g5 lb hlb1 h)
+          rw [this]
+      rw [hfind]
+      simp only
+      rw [if_neg (by omega), hip]
+      simp only
+      have hne' : min (ls + t) ip ≠ min (min (ls + t) ip + s) ip := hne
+      rw [if_pos hne']
+      simp [lineRange]
+    · have hst : b[ls - 1]? = some (.lead '\n') ∧ cur < ls := by
+        rcases hstart with h | h
+        · exact absurd h hc
+        · exact h
+      cases hx : findNextLB b cur false with
+      | none => exact absurd hst.1 (findNextLB_none_false b cur h0 hx (ls - 1) (by omega))
+      | some lb' =>
+        obtain ⟨_, g2, _, g4, g5, _⟩ := findNextLB_some _ _ _ _ hx
+        have hle' : lb' ≤ ls - 1 := by
+          rcases Nat.lt_or_ge (ls - 1) lb' with h | h
+          · exact absurd hst.1 (g5 (ls - 1) (by omega) h)
+          · exact h
+        simp only
+        rw [if_neg (by omega)]
+        apply List.mem_append_right
+        apply blockLoop_complete b endPos t s fuel (lb' + 1) ls lb ip (by omega) (by omega) ?_ hlb1 hlb2 hlb3 hend
+          (by omega) hip hne
+        by_cases he : ls = lb' + 1
+        · exact Or.inl he
+        · exact Or.inr ⟨hst.1, by omega⟩
+
 /-- column of the head seam and shift, as the code computes them -/
 def tagColumn (b : Bytes) (startPos : Nat) : Nat :=
   match findPrevLB b startPos true with
@@ -97,6 +153,30 @@ theorem fmtBlockIndent_shape (b : Bytes) (startPos endPos : Nat) :
     simp only at hr
     obtain ⟨ls, ip, h1, h2, h3, h4, h5⟩ := blockLoop_shape b endPos _ _ _ _ r hr
     exact ⟨startPos + ofs + 1, ls, ip, by simp [firstLine, hf], h1, h2, h3, h4, h5⟩
+
+/-- completeness for the whole pass: every line of the block - from the first line behind the head seam's line up to
+    the last line that ends before `endPos` - gets its range -/
+theorem fmtBlockIndent_complete (b : Bytes) (startPos endPos cur ls lb ip : Nat)
+    (hcur : firstLine b startPos = some cur) (hle : cur ≤ ls)
+    (hstart : ls = cur ∨ b[ls - 1]? = some (.lead '\n') ∧ cur < ls)
+    (hlb1 : ls ≤ lb) (hlb2 : b[lb]? = some (.lead '\n')) (hlb3 : ∀ i, ls ≤ i → i < lb → b[i]? ≠ some (.lead '\n'))
+    (hend : lb + 1 ≤ endPos) (hip : findNextChar b ls = some ip)
+    (hne : (lineRange ls ip (tagColumn b startPos) (getIndentLen b cur - tagColumn b startPos)).1 ≠
+           (lineRange ls ip (tagColumn b startPos) (getIndentLen b cur - tagColumn b startPos)).2) :
+    lineRange ls ip (tagColumn b startPos) (getIndentLen b cur - tagColumn b startPos) ∈ fmtBlockIndent b startPos endPos := by
+  unfold firstLine at hcur
+  unfold fmtBlockIndent
+  dsimp only
+  cases hf : (b.drop startPos).findIdx? (fun x => x == .lead '\n') with
+  | none => rw [hf] at hcur; simp at hcur
+  | some ofs =>
+    rw [hf] at hcur
+    simp only [Option.map_some, Option.some.injEq] at hcur
+    subst hcur
+    simp only
+    have hlt := lt_of_getElem?_some _ _ _ hlb2
+    exact blockLoop_complete b endPos _ _ (b.length + 1) _ ls lb ip (by omega) hle hstart hlb1 hlb2 hlb3 hend
+      (by omega) hip hne
 
 /-- only blanks are consumed, at character boundaries -/
 theorem only_blanks (s : List Char) (startPos endPos : Nat) :
